@@ -209,9 +209,33 @@ def named_family(rng, n):
     return getattr(PG, f)(n).generators_permutations, f
 
 
+def deep_directed_def(rng):
+    """Directed (not inverse-closed) graphs with a small orbit and MANY layers: one long cycle, optionally with a local
+    3-cycle / transposition, acting on a state with one or two marked points."""
+    n = rng.randint(11, 26)
+    gens = [[(i + 1) % n for i in range(n)]]
+    r = rng.random()
+    if r < 0.35:
+        a = rng.randrange(n - 2)
+        p = list(range(n))
+        p[a], p[a + 1], p[a + 2] = a + 1, a + 2, a
+        gens.append(p)
+    elif r < 0.6:
+        p = list(range(n))
+        p[0], p[1] = 1, 0
+        gens.append(p)
+    central = [0] * n
+    central[rng.randrange(n)] = 1
+    if rng.random() < 0.4:
+        central[rng.randrange(n)] = rng.choice([1, 2])
+    return GDef("perm", gens, central, tag="deep-directed")
+
+
 def gen_perm_def(rng, cap_n=9):
     """Mostly valid permutation definitions with small orbits."""
     r = rng.random()
+    if r < 0.06:
+        return deep_directed_def(rng)
     if r < 0.25:
         n = rng.randint(3, min(cap_n, 7))
         gens, tag = named_family(rng, n)
